@@ -146,102 +146,242 @@ theorem arr_wrap (T : Tape) (p : Nat) (x : BTok) (s : PState) (rest benc : Bytes
   rw [e1]; rw [e2] at hb
   exact Reach.head h1 (hb.trans (Reach.head h3 (Reach.refl _)))
 
-mutual
-theorem val_value_reach : ∀ (v : Val), v.nest1 true = true → v.wf = true →
-    ∀ (T : Tape) (p : Nat) (rest : Bytes) (x : BTok), T[p]? = some x → x.notArray →
-    Reach ⟨T, p, .objectValue, v.encode ++ rest⟩ ⟨T ++ v.tape T.length true, p, .key, rest⟩
-  | .sc s, _, hw, T, p, rest, x, hx, hxa => by
-    have h := step_sc s (by simpa [Val.wf] using hw) T p .objectValue .key rest (by decide) nextState_objectValue
-    simpa [Val.encode, Val.tape] using Reach.head h (Reach.refl _)
-  | .rgb r g b a, _, hw, T, p, rest, x, hx, hxa => Reach.head (step_rgb_value r g b a hw T p rest) (Reach.refl _)
-  | .arr vs, hn, hw, T, p, rest, x, hx, hxa => by
-    have h := arr_wrap T p x .objectValue rest vs.encode (vs.tape (T.length + 1)) hx (by decide) (by decide)
-      (fun rest' => by
-        have := vals_reach vs (by simpa [Val.nest1] using hn) (by simpa [Val.wf] using hw)
-          (T ++ [.array p]) T.length rest' p .openFirst (by simp) (Or.inl rfl)
-        simpa using this)
-    rw [closeState_key hxa] at h
-    simpa [Val.encode, Val.tape, List.append_assoc] using h
-  | .obj fs, hn, hw, T, p, rest, x, hx, hxa => by
-    have h := obj_reach fs (by simpa [Val.nest1] using hn) (by simpa [Val.wf] using hw) T p rest x .objectValue hx
-      (by decide) (by decide)
-    rw [closeState_key hxa] at h
-    exact h
-theorem obj_reach : ∀ (fs : Fields), (fs.firstNoGhost && fs.nest1) = true → fs.wf = true →
-    ∀ (T : Tape) (p : Nat) (rest : Bytes) (x : BTok) (s : PState), T[p]? = some x → s ≠ .key → s ≠ .objectToArray →
-    Reach ⟨T, p, s, (Val.obj fs).encode ++ rest⟩ ⟨T ++ (Val.obj fs).tape T.length true, p, closeState x, rest⟩
-  | .nil, _, _, T, p, rest, x, s, hx, hs1, hs2 => by
-    have h := arr_wrap T p x s rest [] [] hx hs1 hs2
-      (fun rest' => ⟨.openFirst, Or.inl rfl, by simpa using Reach.refl _⟩)
-    simpa [Val.encode, Val.tape, Fields.encode, Fields.tape, List.append_assoc] using h
-  | .cons g k v more, hn, hw, T, p, rest, x, s, hx, hs1, hs2 => by
-    simp only [Fields.firstNoGhost, Fields.nest1, Bool.and_eq_true, beq_iff_eq] at hn
-    obtain ⟨rfl, hnv, hnm⟩ := hn
-    simp only [Fields.wf, Bool.and_eq_true] at hw
-    obtain ⟨⟨hk, hwv⟩, hwm⟩ := hw
-    -- `{`
-    have h1 := step_open_at T p s (k.encode ++ (le16 L.equal ++ (v.encode ++ (more.encode ++ (le16 L.close ++ rest))))) hs1 hs2
-    -- key in OpenFirst
-    have h2 := step_sc k hk (T ++ [.array p]) T.length .openFirst .openSecond
-      (le16 L.equal ++ (v.encode ++ (more.encode ++ (le16 L.close ++ rest)))) (by decide) nextState_openFirst
-    -- `=`: the container becomes an object
+
+/-- the rgb marker outside value position is pushed as an ordinary id -/
+theorem step_rgb_marker (T : Tape) (p : Nat) (s s' : PState) (rest : Bytes) (h1 : s ≠ .objectToArray)
+    (h2 : s ≠ .objectValue) (hn : nextState s = some s') :
+    step ⟨T, p, s, le16 L.rgb ++ rest⟩ = .next ⟨T ++ [.token L.rgb], p, s', rest⟩ := by
+  refine step_scalar_ok s (readId_le16 L.rgb (by decide) rest) h1 (r := .ok (T ++ [.token L.rgb], rest)) ?_ rfl hn
+  simp [tokenArm, L.rgb, L.u32, L.u64, L.i32, L.bool, L.quoted, L.unquoted, L.f32, L.f64, L.open_, L.close, L.equal, L.i64, h2]
+
+/-- a run of `U32` elements -/
+theorem u32s_reach : ∀ (bs : List Bytes), (∀ b ∈ bs, b.length = 4) → ∀ (T : Tape) (P : Nat) (s : PState) (rest : Bytes), InArr s →
+    ∃ s', InArr s' ∧ Reach ⟨T, P, s, (bs.flatMap fun b => (Sc.u32 b).encode) ++ rest⟩
+      ⟨T ++ bs.map (fun b => BTok.u32 (leNat b)), P, s', rest⟩
+  | [], _, T, P, s, rest, hs => ⟨s, hs, by simpa using Reach.refl _⟩
+  | b :: bs, hb, T, P, s, rest, hs => by
+    obtain ⟨s1, hn1, hs1⟩ := hs.next
+    have h1 := step_sc (.u32 b) (by simp [Sc.wf, hb b (by simp)]) T P s s1
+      ((bs.flatMap fun b => (Sc.u32 b).encode) ++ rest) hs.ne.2.1 hn1
+    obtain ⟨s2, hs2, h2⟩ := u32s_reach bs (fun x hx => hb x (by simp [hx])) (T ++ [(Sc.u32 b).tok]) P s1 rest hs1
+    refine ⟨s2, hs2, ?_⟩
+    have := Reach.head h1 h2
+    simpa [Sc.tok, List.append_assoc] using this
+
+/-- an rgb block in element position: the marker as an id, then an array of `U32` -/
+theorem rgb_elem_reach (r g b : Bytes) (a : Option Bytes) (hw : (Val.rgb r g b a).wf = true)
+    (T : Tape) (p : Nat) (rest : Bytes) (gg : Nat) (s : PState) (hx : T[p]? = some (.array gg)) (hs : InArr s) :
+    ∃ s', InArr s' ∧ Reach ⟨T, p, s, (Val.rgb r g b a).encode ++ rest⟩ ⟨T ++ (Val.rgb r g b a).tape T.length false, p, s', rest⟩ := by
+  simp only [Val.wf, Bool.and_eq_true, beq_iff_eq] at hw
+  obtain ⟨⟨⟨hr, hg⟩, hb⟩, ha⟩ := hw
+  let bs : List Bytes := [r, g, b] ++ a.toList
+  have hbs : ∀ x ∈ bs, x.length = 4 := by
+    intro x hx
+    cases a with
+    | none => simp [bs] at hx; rcases hx with rfl | rfl | rfl <;> assumption
+    | some a => simp [bs] at hx; simp at ha; rcases hx with rfl | rfl | rfl | rfl <;> assumption
+  obtain ⟨s1, hn1, hs1⟩ := hs.next
+  have h1 := step_rgb_marker T p s s1
+    (le16 L.open_ ++ (bs.flatMap fun b => (Sc.u32 b).encode) ++ le16 L.close ++ rest)
+    hs.ne.2.1 hs.ne.2.2.2 hn1
+  have hx1 : (T ++ [BTok.token L.rgb])[p]? = some (.array gg) := getElem?_snoc_of_some hx
+  have h2 := arr_wrap (T ++ [.token L.rgb]) p (.array gg) s1 rest
+    (bs.flatMap fun b => (Sc.u32 b).encode) (bs.map fun b => BTok.u32 (leNat b))
+    hx1 hs1.ne.1 hs1.ne.2.1
+    (fun rest' => u32s_reach bs hbs _ _ .openFirst rest' (Or.inl rfl))
+  refine ⟨_, closeState_inArr gg, ?_⟩
+  have e1 : (Val.rgb r g b a).encode ++ rest = le16 L.rgb ++
+      (le16 L.open_ ++ (bs.flatMap fun b => (Sc.u32 b).encode) ++ le16 L.close ++ rest) := by
+    cases a <;> simp [bs, Val.encode, Sc.encode, List.append_assoc]
+  have e2 : T ++ (Val.rgb r g b a).tape T.length false =
+      T ++ [BTok.token L.rgb] ++ BTok.array ((T ++ [BTok.token L.rgb]).length + 1 + (bs.map fun b => BTok.u32 (leNat b)).length) ::
+        (bs.map fun b => BTok.u32 (leNat b)) ++ [.end_ (T ++ [BTok.token L.rgb]).length] := by
+    cases a <;> simp [bs, Val.tape, Nat.add_assoc]
+  rw [e1, e2]
+  exact Reach.head h1 h2
+
+
+/-- the tokens `g` empty containers leave on the tape from index `base` on -/
+def ghostPairs : Nat → Nat → Tape
+  | 0, _ => []
+  | n + 1, base => .array (base + 1) :: .end_ base :: ghostPairs n (base + 2)
+
+theorem ghostPairs_length : ∀ (n base : Nat), (ghostPairs n base).length = 2 * n
+  | 0, _ => rfl
+  | n + 1, base => by simp [ghostPairs, ghostPairs_length n]; omega
+
+theorem ghostPairs_allEmpty : ∀ (n base : Nat), allEmptyPairs (ghostPairs n base) = true
+  | 0, _ => rfl
+  | n + 1, base => by simp [ghostPairs, allEmptyPairs, ghostPairs_allEmpty n]
+
+/-- one empty container in element position -/
+theorem ghost_pair_reach (U : Tape) (P p : Nat) (s : PState) (rest : Bytes) (hU : U[P]? = some (.array p))
+    (h1 : s ≠ .key) (h2 : s ≠ .objectToArray) :
+    Reach ⟨U, P, s, le16 L.open_ ++ le16 L.close ++ rest⟩ ⟨U ++ [.array (U.length + 1), .end_ U.length], P, .arrayValue, rest⟩ := by
+  have a := step_open_at U P s (le16 L.close ++ rest) h1 h2
+  have b := step_close_at U [] P (.array p) false .openFirst rest hU (by decide) (by decide) (by decide)
+  simp only [Bool.false_eq_true, if_false, List.length_nil, Nat.add_zero] at b
+  rw [List.append_assoc]
+  have e : U ++ [BTok.array P] = U ++ BTok.array P :: [] := rfl
+  rw [e] at a
+  have := Reach.head a (Reach.head b (Reach.refl _))
+  simpa [closeState] using this
+
+theorem ghosts_open_reach : ∀ (g : Nat) (U : Tape) (P p : Nat) (s : PState) (rest : Bytes), U[P]? = some (.array p) → InArr s →
+    Reach ⟨U, P, s, ghostBytes g ++ rest⟩ ⟨U ++ ghostPairs g U.length, P, if g = 0 then s else .arrayValue, rest⟩
+  | 0, U, P, p, s, rest, hU, hs => by simpa [ghostBytes, ghostPairs] using Reach.refl _
+  | g + 1, U, P, p, s, rest, hU, hs => by
+    have h1 := ghost_pair_reach U P p s (ghostBytes g ++ rest) hU hs.ne.1 hs.ne.2.1
+    have hU' : (U ++ [BTok.array (U.length + 1), BTok.end_ U.length])[P]? = some (.array p) := by
+      rw [List.getElem?_append_left (getElem?_lt_length hU)]; exact hU
+    have h2 := ghosts_open_reach g _ P p .arrayValue rest hU' (Or.inr (Or.inr rfl))
+    have e1 : ghostBytes (g + 1) ++ rest = le16 L.open_ ++ le16 L.close ++ (ghostBytes g ++ rest) := by simp [ghostBytes]
+    have e2 : U ++ ghostPairs (g + 1) U.length
+        = U ++ [BTok.array (U.length + 1), BTok.end_ U.length] ++ ghostPairs g (U ++ [BTok.array (U.length + 1), BTok.end_ U.length]).length := by
+      simp [ghostPairs]
+    rw [e1, e2]
+    have := h1.trans h2
+    simpa using this
+
+theorem pop?_snoc (l : Tape) (x : BTok) : pop? (l ++ [x]) = some (l, x) := by simp [pop?]
+
+/-- `=` after `{ {} … {} key`: the only_empties rewrite (tape.rs:600-616) drops the ghosts and
+turns the container into an object -/
+theorem step_equal_ghosts (T : Tape) (p g : Nat) (ktok : BTok) (rest : Bytes) (hg : g ≠ 0)
+    (hk1 : ∀ e, ktok ≠ .array e) (hk2 : ∀ i, ktok ≠ .end_ i) :
+    step ⟨T ++ BTok.array p :: ghostPairs g (T.length + 1) ++ [ktok], T.length, .arrayValue, le16 L.equal ++ rest⟩
+      = .next ⟨T ++ [.object p, ktok], T.length, .objectValue, rest⟩ := by
+  rw [step_eq (st := ⟨_, _, .arrayValue, _⟩) (readId_le16 L.equal (by decide) rest)]
+  have hpop : pop? (T ++ BTok.array p :: ghostPairs g (T.length + 1) ++ [ktok])
+      = some (T ++ BTok.array p :: ghostPairs g (T.length + 1), ktok) := pop?_snoc _ _
+  have hdrop : (T ++ BTok.array p :: ghostPairs g (T.length + 1)).drop (T.length + 1) = ghostPairs g (T.length + 1) := by
+    rw [List.drop_append]; simp
+  have hoe : onlyEmpties (T ++ BTok.array p :: ghostPairs g (T.length + 1)) T.length = true := by
+    simp only [onlyEmpties, hdrop, ghostPairs_length, ghostPairs_allEmpty, Bool.and_true, decide_eq_true_eq]
+    omega
+  have hset : setParentToObject (T ++ BTok.array p :: ghostPairs g (T.length + 1)) T.length
+      = .ok (T ++ BTok.object p :: ghostPairs g (T.length + 1)) := by simp [setParentToObject]
+  have htake : (T ++ BTok.object p :: ghostPairs g (T.length + 1)).take (T.length + 1) = T ++ [.object p] := by
+    rw [List.take_append]; simp [List.take_of_length_le]
+  simp only [dispatch, tokenArm_equal, equalArm, hpop]
+  cases ktok <;> first
+    | exact absurd rfl (hk1 _)
+    | exact absurd rfl (hk2 _)
+    | simp [hoe, hset, htake, Iter.ofExcept]
+
+theorem Sc.tok_ne_array (k : Sc) (e : Nat) : k.tok ≠ .array e := by cases k <;> simp [Sc.tok]
+theorem Sc.tok_ne_end (k : Sc) (i : Nat) : k.tok ≠ .end_ i := by cases k <;> simp [Sc.tok]
+
+/-- `{ [ghosts] key =` : the container becomes an object holding the key, ghosts dropped -/
+theorem obj_front_reach (T : Tape) (p g : Nat) (k : Sc) (hk : k.wf = true) (s : PState) (R : Bytes)
+    (hs1 : s ≠ .key) (hs2 : s ≠ .objectToArray) :
+    Reach ⟨T, p, s, le16 L.open_ ++ (ghostBytes g ++ (k.encode ++ (le16 L.equal ++ R)))⟩
+      ⟨T ++ [.object p, k.tok], T.length, .objectValue, R⟩ := by
+  have h1 := step_open_at T p s (ghostBytes g ++ (k.encode ++ (le16 L.equal ++ R))) hs1 hs2
+  refine Reach.head h1 ?_
+  cases g with
+  | zero =>
+    have h2 := step_sc k hk (T ++ [.array p]) T.length .openFirst .openSecond (le16 L.equal ++ R) (by decide) nextState_openFirst
     have h3 := step_equal_openSecond (tape := T ++ [BTok.array p] ++ [k.tok]) (parent := T.length)
-      (readId_le16 L.equal (by decide) (v.encode ++ (more.encode ++ (le16 L.close ++ rest))))
+      (readId_le16 L.equal (by decide) R)
     have hset : setParentToObject (T ++ [BTok.array p] ++ [k.tok]) T.length = .ok (T ++ [BTok.object p, k.tok]) := by
       simp [setParentToObject]
     rw [hset] at h3
     simp only at h3
+    simpa [ghostBytes] using Reach.head h2 (Reach.head h3 (Reach.refl _))
+  | succ g' =>
+    have hslot : (T ++ [BTok.array p])[T.length]? = some (.array p) := by simp
+    have hg := ghosts_open_reach (g' + 1) (T ++ [.array p]) T.length p .openFirst (k.encode ++ (le16 L.equal ++ R)) hslot (Or.inl rfl)
+    simp only [Nat.add_one_ne_zero, if_false] at hg
+    have h2 := step_sc k hk (T ++ [.array p] ++ ghostPairs (g' + 1) (T ++ [BTok.array p]).length) T.length .arrayValue .arrayValue
+      (le16 L.equal ++ R) (by decide) nextState_arrayValue
+    have h3 := step_equal_ghosts T p (g' + 1) k.tok R (by omega) k.tok_ne_array k.tok_ne_end
+    have e : T ++ [BTok.array p] ++ ghostPairs (g' + 1) (T ++ [BTok.array p]).length ++ [k.tok]
+        = T ++ BTok.array p :: ghostPairs (g' + 1) (T.length + 1) ++ [k.tok] := by simp
+    rw [e] at h2
+    exact hg.trans (Reach.head h2 (Reach.head h3 (Reach.refl _)))
+
+mutual
+theorem val_value_reach : ∀ (v : Val), v.wf = true →
+    ∀ (T : Tape) (p : Nat) (rest : Bytes) (x : BTok), T[p]? = some x → x.notArray →
+    Reach ⟨T, p, .objectValue, v.encode ++ rest⟩ ⟨T ++ v.tape T.length true, p, .key, rest⟩
+  | .sc s, hw, T, p, rest, x, hx, hxa => by
+    have h := step_sc s (by simpa [Val.wf] using hw) T p .objectValue .key rest (by decide) nextState_objectValue
+    simpa [Val.encode, Val.tape] using Reach.head h (Reach.refl _)
+  | .rgb r g b a, hw, T, p, rest, x, hx, hxa => Reach.head (step_rgb_value r g b a hw T p rest) (Reach.refl _)
+  | .arr vs, hw, T, p, rest, x, hx, hxa => by
+    have h := arr_wrap T p x .objectValue rest vs.encode (vs.tape (T.length + 1)) hx (by decide) (by decide)
+      (fun rest' => by
+        have := vals_reach vs (by simpa [Val.wf] using hw)
+          (T ++ [.array p]) T.length rest' p .openFirst (by simp) (Or.inl rfl)
+        simpa using this)
+    rw [closeState_key hxa] at h
+    simpa [Val.encode, Val.tape, List.append_assoc] using h
+  | .obj fs, hw, T, p, rest, x, hx, hxa => by
+    have h := obj_reach fs (by simpa [Val.wf] using hw) T p rest x .objectValue hx (by decide) (by decide)
+    rw [closeState_key hxa] at h
+    exact h
+theorem obj_reach : ∀ (fs : Fields), fs.wf = true →
+    ∀ (T : Tape) (p : Nat) (rest : Bytes) (x : BTok) (s : PState), T[p]? = some x → s ≠ .key → s ≠ .objectToArray →
+    Reach ⟨T, p, s, (Val.obj fs).encode ++ rest⟩ ⟨T ++ (Val.obj fs).tape T.length true, p, closeState x, rest⟩
+  | .nil, _, T, p, rest, x, s, hx, hs1, hs2 => by
+    have h := arr_wrap T p x s rest [] [] hx hs1 hs2
+      (fun rest' => ⟨.openFirst, Or.inl rfl, by simpa using Reach.refl _⟩)
+    simpa [Val.encode, Val.tape, Fields.encode, Fields.tape, List.append_assoc] using h
+  | .cons g k v more, hw, T, p, rest, x, s, hx, hs1, hs2 => by
+    simp only [Fields.wf, Bool.and_eq_true] at hw
+    obtain ⟨⟨hk, hwv⟩, hwm⟩ := hw
+    -- `{ [ghosts] key =`
+    have h123 := obj_front_reach T p g k hk s (v.encode ++ (more.encode ++ (le16 L.close ++ rest))) hs1 hs2
     -- value, remaining fields
     have hslot : (T ++ [BTok.object p, k.tok])[T.length]? = some (.object p) := by simp
-    have h4 := val_value_reach v hnv hwv (T ++ [BTok.object p, k.tok]) T.length
+    have h4 := val_value_reach v hwv (T ++ [BTok.object p, k.tok]) T.length
       (more.encode ++ (le16 L.close ++ rest)) (.object p) hslot trivial
     have hslot2 : (T ++ [BTok.object p, k.tok] ++ v.tape (T ++ [BTok.object p, k.tok]).length true)[T.length]? = some (.object p) := by
       rw [List.getElem?_append_left (by simp)]; exact hslot
-    have h5 := fields_reach more hnm hwm _ T.length (le16 L.close ++ rest) (.object p) hslot2 trivial
+    have h5 := fields_reach more hwm _ T.length (le16 L.close ++ rest) (.object p) hslot2 trivial
     -- `}` in key position
     have h6 := step_close_at T (k.tok :: (v.tape (T.length + 2) true ++ more.tape (T.length + 2 + (v.tape (T.length + 2) true).length)))
       p x true .key rest hx (by decide) (by decide) (by decide)
     simp only [if_true] at h6
-    have e1 : (Val.obj (Fields.cons 0 k v more)).encode ++ rest
-        = le16 L.open_ ++ (k.encode ++ (le16 L.equal ++ (v.encode ++ (more.encode ++ (le16 L.close ++ rest))))) := by
-      simp [Val.encode, Fields.encode, ghostBytes, List.append_assoc]
+    have e1 : (Val.obj (Fields.cons g k v more)).encode ++ rest
+        = le16 L.open_ ++ (ghostBytes g ++ (k.encode ++ (le16 L.equal ++ (v.encode ++ (more.encode ++ (le16 L.close ++ rest)))))) := by
+      simp [Val.encode, Fields.encode, List.append_assoc]
     have e2 : T ++ [BTok.object p, k.tok] ++ v.tape (T ++ [BTok.object p, k.tok]).length true ++
           more.tape (T ++ [BTok.object p, k.tok] ++ v.tape (T ++ [BTok.object p, k.tok]).length true).length
         = T ++ BTok.object p :: k.tok :: (v.tape (T.length + 2) true ++ more.tape (T.length + 2 + (v.tape (T.length + 2) true).length)) := by
       simp [Nat.add_assoc, Nat.add_comm, Nat.add_left_comm]
       congr 1; omega
-    have e3 : T ++ (Val.obj (Fields.cons 0 k v more)).tape T.length true
+    have e3 : T ++ (Val.obj (Fields.cons g k v more)).tape T.length true
         = T ++ BTok.object (T.length + 1 + (k.tok :: (v.tape (T.length + 2) true ++ more.tape (T.length + 2 + (v.tape (T.length + 2) true).length))).length)
             :: (k.tok :: (v.tape (T.length + 2) true ++ more.tape (T.length + 2 + (v.tape (T.length + 2) true).length))) ++ [.end_ T.length] := by
       simp [Val.tape, Fields.tape, Nat.add_assoc, Nat.add_comm, Nat.add_left_comm]
     rw [e1, e3]
     rw [e2] at h5
-    exact Reach.head h1 (Reach.head h2 (Reach.head h3 (h4.trans (h5.trans (Reach.head h6 (Reach.refl _))))))
-theorem val_elem_reach : ∀ (v : Val), v.nest1 false = true → v.wf = true →
+    exact h123.trans (h4.trans (h5.trans (Reach.head h6 (Reach.refl _))))
+theorem val_elem_reach : ∀ (v : Val), v.wf = true →
     ∀ (T : Tape) (p : Nat) (rest : Bytes) (g : Nat) (s : PState), T[p]? = some (.array g) → InArr s →
     ∃ s', InArr s' ∧ Reach ⟨T, p, s, v.encode ++ rest⟩ ⟨T ++ v.tape T.length false, p, s', rest⟩
-  | .sc sc, _, hw, T, p, rest, g, s, hx, hs => by
+  | .sc sc, hw, T, p, rest, g, s, hx, hs => by
     obtain ⟨s', hn, hs'⟩ := hs.next
     have h := step_sc sc (by simpa [Val.wf] using hw) T p s s' rest hs.ne.2.1 hn
     exact ⟨s', hs', by simpa [Val.encode, Val.tape] using Reach.head h (Reach.refl _)⟩
-  | .rgb _ _ _ _, hn, _, _, _, _, _, _, _, _ => by simp [Val.nest1] at hn
-  | .arr vs, hn, hw, T, p, rest, g, s, hx, hs => by
+  | .rgb r gr b a, hw, T, p, rest, g, s, hx, hs => rgb_elem_reach r gr b a hw T p rest g s hx hs
+  | .arr vs, hw, T, p, rest, g, s, hx, hs => by
     have h := arr_wrap T p (.array g) s rest vs.encode (vs.tape (T.length + 1)) hx hs.ne.1 hs.ne.2.1
       (fun rest' => by
-        have := vals_reach vs (by simpa [Val.nest1] using hn) (by simpa [Val.wf] using hw)
+        have := vals_reach vs (by simpa [Val.wf] using hw)
           (T ++ [.array p]) T.length rest' p .openFirst (by simp) (Or.inl rfl)
         simpa using this)
     exact ⟨_, closeState_inArr g, by simpa [Val.encode, Val.tape, List.append_assoc] using h⟩
-  | .obj fs, hn, hw, T, p, rest, g, s, hx, hs => by
-    have h := obj_reach fs (by simpa [Val.nest1] using hn) (by simpa [Val.wf] using hw) T p rest (.array g) s hx
-      hs.ne.1 hs.ne.2.1
+  | .obj fs, hw, T, p, rest, g, s, hx, hs => by
+    have h := obj_reach fs (by simpa [Val.wf] using hw) T p rest (.array g) s hx hs.ne.1 hs.ne.2.1
     exact ⟨_, closeState_inArr g, by simpa [Val.tape] using h⟩
-theorem fields_reach : ∀ (fs : Fields), fs.nest1 = true → fs.wf = true →
+theorem fields_reach : ∀ (fs : Fields), fs.wf = true →
     ∀ (T : Tape) (p : Nat) (rest : Bytes) (x : BTok), T[p]? = some x → x.notArray →
     Reach ⟨T, p, .key, fs.encode ++ rest⟩ ⟨T ++ fs.tape T.length, p, .key, rest⟩
-  | .nil, _, _, T, p, rest, x, hx, hxa => by simpa [Fields.encode, Fields.tape] using Reach.refl _
-  | .cons g k v more, hn, hw, T, p, rest, x, hx, hxa => by
-    simp only [Fields.nest1, Bool.and_eq_true] at hn
+  | .nil, _, T, p, rest, x, hx, hxa => by simpa [Fields.encode, Fields.tape] using Reach.refl _
+  | .cons g k v more, hw, T, p, rest, x, hx, hxa => by
     simp only [Fields.wf, Bool.and_eq_true] at hw
     obtain ⟨⟨hk, hwv⟩, hwm⟩ := hw
     have hT : T ≠ [] := by intro h; subst h; simp at hx
@@ -249,10 +389,10 @@ theorem fields_reach : ∀ (fs : Fields), fs.nest1 = true → fs.wf = true →
     have h1 := step_sc k hk T p .key .keyValueSeparator (le16 L.equal ++ (v.encode ++ (more.encode ++ rest))) (by decide) nextState_key
     have h2 := step_equal_kvs (tape := T ++ [k.tok]) (parent := p) (readId_le16 L.equal (by decide) (v.encode ++ (more.encode ++ rest)))
     have hslot : (T ++ [k.tok])[p]? = some x := getElem?_snoc_of_some hx
-    have h3 := val_value_reach v hn.1 hwv (T ++ [k.tok]) p (more.encode ++ rest) x hslot hxa
+    have h3 := val_value_reach v hwv (T ++ [k.tok]) p (more.encode ++ rest) x hslot hxa
     have hslot2 : (T ++ [k.tok] ++ v.tape (T ++ [k.tok]).length true)[p]? = some x := by
       rw [List.getElem?_append_left (getElem?_lt_length hslot)]; exact hslot
-    have h4 := fields_reach more hn.2 hwm _ p rest x hslot2 hxa
+    have h4 := fields_reach more hwm _ p rest x hslot2 hxa
     have e1 : (Fields.cons g k v more).encode ++ rest
         = ghostBytes g ++ (k.encode ++ (le16 L.equal ++ (v.encode ++ (more.encode ++ rest)))) := by
       simp [Fields.encode, List.append_assoc]
@@ -262,17 +402,16 @@ theorem fields_reach : ∀ (fs : Fields), fs.nest1 = true → fs.wf = true →
       simp [Fields.tape, Nat.add_assoc, Nat.add_comm, Nat.add_left_comm]
     rw [e1, e2]
     exact h0.trans (Reach.head h1 (Reach.head h2 (h3.trans h4)))
-theorem vals_reach : ∀ (vs : Vals), vs.nest1 = true → vs.wf = true →
+theorem vals_reach : ∀ (vs : Vals), vs.wf = true →
     ∀ (T : Tape) (p : Nat) (rest : Bytes) (g : Nat) (s : PState), T[p]? = some (.array g) → InArr s →
     ∃ s', InArr s' ∧ Reach ⟨T, p, s, vs.encode ++ rest⟩ ⟨T ++ vs.tape T.length, p, s', rest⟩
-  | .nil, _, _, T, p, rest, g, s, hx, hs => ⟨s, hs, by simpa [Vals.encode, Vals.tape] using Reach.refl _⟩
-  | .cons v more, hn, hw, T, p, rest, g, s, hx, hs => by
-    simp only [Vals.nest1, Bool.and_eq_true] at hn
+  | .nil, _, T, p, rest, g, s, hx, hs => ⟨s, hs, by simpa [Vals.encode, Vals.tape] using Reach.refl _⟩
+  | .cons v more, hw, T, p, rest, g, s, hx, hs => by
     simp only [Vals.wf, Bool.and_eq_true] at hw
-    obtain ⟨s1, hs1, h1⟩ := val_elem_reach v hn.1 hw.1 T p (more.encode ++ rest) g s hx hs
+    obtain ⟨s1, hs1, h1⟩ := val_elem_reach v hw.1 T p (more.encode ++ rest) g s hx hs
     have hslot : (T ++ v.tape T.length false)[p]? = some (.array g) := by
       rw [List.getElem?_append_left (getElem?_lt_length hx)]; exact hx
-    obtain ⟨s2, hs2, h2⟩ := vals_reach more hn.2 hw.2 _ p rest g s1 hslot hs1
+    obtain ⟨s2, hs2, h2⟩ := vals_reach more hw.2 _ p rest g s1 hslot hs1
     refine ⟨s2, hs2, ?_⟩
     have e1 : (Vals.cons v more).encode ++ rest = v.encode ++ (more.encode ++ rest) := by simp [Vals.encode]
     have e2 : T ++ (Vals.cons v more).tape T.length
@@ -293,20 +432,19 @@ theorem parse_of_reach {data : Bytes} {tape : Tape} (h : Reach (init data) ⟨ta
     simpa [finish] using Res.done hd
   exact Res.det (run_false_res _ _ (init data) (by simp [init]) (init_good _)) hres
 
-/-- a whole document (first key on an empty tape) in fragment `nest1` -/
-theorem doc_reach_nest1 : ∀ (doc : Fields), doc.nest1 = true → doc.wfDoc = true →
+/-- a whole document (first key on an empty tape) -/
+theorem doc_reach : ∀ (doc : Fields), doc.wfDoc = true →
     Reach (init doc.encode) ⟨doc.tape 0, 0, .key, []⟩
-  | .nil, _, _ => by simpa [init, Fields.encode, Fields.tape] using Reach.refl _
-  | .cons g k v more, hn, hw => by
-    simp only [Fields.nest1, Bool.and_eq_true] at hn
+  | .nil, _ => by simpa [init, Fields.encode, Fields.tape] using Reach.refl _
+  | .cons g k v more, hw => by
     simp only [Fields.wfDoc, Fields.wf, Bool.and_eq_true, beq_iff_eq] at hw
     obtain ⟨rfl, ⟨hk, hwv⟩, hwm⟩ := hw
     have h1 := step_sc k hk [] 0 .key .keyValueSeparator (le16 L.equal ++ (v.encode ++ (more.encode ++ []))) (by decide) nextState_key
     have h2 := step_equal_kvs (tape := [] ++ [k.tok]) (parent := 0) (readId_le16 L.equal (by decide) (v.encode ++ (more.encode ++ [])))
     have hslot : ([] ++ [k.tok])[0]? = some k.tok := by simp
-    have h3 := val_value_reach v hn.1 hwv ([] ++ [k.tok]) 0 (more.encode ++ []) k.tok hslot k.tok_notArray
+    have h3 := val_value_reach v hwv ([] ++ [k.tok]) 0 (more.encode ++ []) k.tok hslot k.tok_notArray
     have hslot2 : ([] ++ [k.tok] ++ v.tape ([] ++ [k.tok]).length true)[0]? = some k.tok := by simp
-    have h4 := fields_reach more hn.2 hwm _ 0 [] k.tok hslot2 k.tok_notArray
+    have h4 := fields_reach more hwm _ 0 [] k.tok hslot2 k.tok_notArray
     have e1 : init (Fields.cons 0 k v more).encode
         = ⟨[], 0, .key, k.encode ++ (le16 L.equal ++ (v.encode ++ (more.encode ++ [])))⟩ := by
       simp [init, Fields.encode, ghostBytes, List.append_assoc]
@@ -316,10 +454,15 @@ theorem doc_reach_nest1 : ∀ (doc : Fields), doc.nest1 = true → doc.wfDoc = t
     rw [e1, e2]
     exact Reach.head h1 (Reach.head h2 (h3.trans h4))
 
-/-- **faithfulness, fragment 1**: scalars of all ten types as keys and values, nested objects and
-arrays to any depth, empty containers, rgb blocks as values, ghost `{}` objects in front of any
-key that is not the first key of its object -/
-theorem faithful_nest1 (doc : Fields) (hn : doc.nest1 = true) (hw : doc.wfDoc = true) : Faithful doc :=
-  parse_of_reach (doc_reach_nest1 doc hn hw)
+/-- **faithfulness for the whole document model** of Spec/BinTapeDoc.lean: scalars of all ten
+types as keys and values, objects and arrays nested to any depth, empty containers, rgb blocks in
+value and in element position, ghost `{}` objects in front of any key (also directly after `{`,
+where they go through the only_empties rewrite) except the very first key of the document. -/
+theorem faithful_doc (doc : Fields) (hw : doc.wfDoc = true) : Faithful doc :=
+  parse_of_reach (doc_reach doc hw)
+
+/-- fragment 1 (kept as a corollary) -/
+theorem faithful_nest1 (doc : Fields) (_hn : doc.nest1 = true) (hw : doc.wfDoc = true) : Faithful doc :=
+  faithful_doc doc hw
 
 end Jomini.BinTape
